@@ -50,6 +50,9 @@ def main(ck):
     ok = ck.coq_build(["C14/Proofs.vo", "C14/Inv.vo", "C14/Corr.vo"])
     if ok:
         ck.coq_props(["C14/Props.v"])
+        if ck.tier == "thorough":
+            ck.coq_build(["C14/Props.vo"])
+            ck.coqchk(["OG.C14.Props"])
     binp = ck.go_build("./cmd/c14", "c14")
     if not binp:
         return
